@@ -11,9 +11,9 @@ vars == <<op, k, kind, log, faulted, result, mutated, pc>>
 
 Cleanup  == {"file.Close"}
 Mutating == {"fs.OpenFile", "fs.Create", "file.Write", "file.WriteAt", "file.Truncate", "fs.Remove", "fs.Rename"}
-Kinds(d) == IF d = "file.Write" THEN {"error", "short"} ELSE {"error"}
+Kinds(d) == IF d = "file.Write" THEN {"error", "short"} ELSE IF d = "readerat.ReadAt" THEN {"error", "eof"} ELSE {"error"}   \* eof: short count + io.EOF (file truncated underneath)
 
-Init == /\ op \in DOMAIN Ops /\ k \in 0..Len(Ops[op]) /\ kind \in {"error", "short"}
+Init == /\ op \in DOMAIN Ops /\ k \in 0..Len(Ops[op]) /\ kind \in {"error", "short", "eof"}
         /\ (k = 0 => kind = "error") /\ (k > 0 => kind \in Kinds(Ops[op][k]))
         /\ log = <<>> /\ faulted = FALSE /\ result = "none" /\ mutated = FALSE /\ pc = "run"
 
